@@ -237,42 +237,62 @@ Inductive op :=
 | OWrite (addr : N) (data : list N)
 | OCkpt                      (* save; load into a fresh storage of the same shape; continue with it *)
 | OLoadTrunc (k : N)         (* save; keep the first (k mod length) bytes, a strict prefix; load into the same storage *)
-| OLoadShape (cap unit : N). (* save; overwrite the shape header; load into the same storage *)
+| OLoadShape (cap unit : N)  (* save; overwrite the shape header; load into the same storage *)
+| OSave                      (* save and keep the stream aside *)
+| ORestore.                  (* load the stream kept aside into the CURRENT (non-fresh) storage *)
 
 (** what one operation shows *)
 Inductive obs :=
 | BRes (r : rres)
-| BCkpt (stream : list N) (ok : bool)
-| BLoad (ok : bool).
+| BCkpt (stream : list N) (ok : bool) (resave_same : bool)  (* the restored storage saves to the same stream *)
+| BLoad (ok : bool)
+| BSave (stream : list N).
 
-Definition step (old : bool) (st : storage) (o : op) : storage * obs :=
+(** a history runs on the storage plus the stream kept aside by the last OSave *)
+Definition xst := (storage * option (list N))%type.
+
+Definition step (old : bool) (x : xst) (o : op) : xst * obs :=
+  let '(st, sv) := x in
   match o with
-  | ORead a n => let '(st', r) := read old st a n in (st', BRes r)
-  | OWrite a d => let '(st', r) := write old st a d in (st', BRes r)
+  | ORead a n => let '(st', r) := read old st a n in ((st', sv), BRes r)
+  | OWrite a d => let '(st', r) := write old st a d in ((st', sv), BRes r)
   | OCkpt =>
       let s := save st in
       match load (new_storage (s_cap st) (s_unit st)) s with
-      | Some st' => (st', BCkpt s true)
-      | None => (st, BCkpt s false)
+      | Some st' => ((st', sv), BCkpt s true (listN_eqb (save st') s))
+      | None => ((st, sv), BCkpt s false false)
       end
   | OLoadTrunc k =>
       match load st (firstn (N.to_nat (k mod lenN (save st))) (save st)) with
-      | Some st' => (st', BLoad true)
-      | None => (st, BLoad false)
+      | Some st' => ((st', sv), BLoad true)
+      | None => ((st, sv), BLoad false)
       end
   | OLoadShape c u =>
       match load st (put_u64 c ++ put_u64 u ++ skipn 16 (save st)) with
-      | Some st' => (st', BLoad true)
-      | None => (st, BLoad false)
+      | Some st' => ((st', sv), BLoad true)
+      | None => ((st, sv), BLoad false)
+      end
+  | OSave => ((st, Some (save st)), BSave (save st))
+  | ORestore =>
+      match sv with
+      | None => ((st, sv), BLoad false)
+      | Some s =>
+          match load st s with
+          | Some st' => ((st', sv), BLoad true)
+          | None => ((st, sv), BLoad false)
+          end
       end
   end.
 
-Fixpoint run (old : bool) (st : storage) (ops : list op) : storage * list obs :=
+Fixpoint runx (old : bool) (x : xst) (ops : list op) : xst * list obs :=
   match ops with
-  | [] => (st, [])
-  | o :: r => let '(st1, b) := step old st o in
-              let '(st2, bs) := run old st1 r in (st2, b :: bs)
+  | [] => (x, [])
+  | o :: r => let '(x1, b) := step old x o in
+              let '(x2, bs) := runx old x1 r in (x2, b :: bs)
   end.
+
+Definition run (old : bool) (st : storage) (ops : list op) : storage * list obs :=
+  let '((st', _), bs) := runx old (st, None) ops in (st', bs).
 
 (** byte stored at address [a] *)
 Definition contents (st : storage) (a : N) : N :=
@@ -297,30 +317,39 @@ Definition seqN (a n : N) : list N := map (fun i => a + N.of_nat i) (seq 0 (N.to
 (** projection of an observation to what the flat array can say about it *)
 Inductive fobs := FOk (bytes : list N) | FErr.
 
-(** addr + len is computed WITHOUT wrap *)
-Definition flat_step (cap unit : N) (l : flog) (o : op) : flog * fobs :=
+(** addr + len is computed WITHOUT wrap; the array kept aside by OSave is restored by ORestore *)
+Definition fst_t := (flog * option flog)%type.
+
+Definition flat_step (cap unit : N) (x : fst_t) (o : op) : fst_t * fobs :=
+  let '(l, sl) := x in
   match o with
-  | ORead a n => if cap <? a + n then (l, FErr) else (l, FOk (map (flat_get l) (seqN a n)))
-  | OWrite a d => if cap <? a + lenN d then (l, FErr) else ((a, d) :: l, FOk [])
-  | OCkpt => (l, FOk [])
-  | OLoadTrunc _ => (l, FErr)
-  | OLoadShape c u => if (c =? cap) && (u =? unit) then (l, FOk []) else (l, FErr)
+  | ORead a n => if cap <? a + n then (x, FErr) else (x, FOk (map (flat_get l) (seqN a n)))
+  | OWrite a d => if cap <? a + lenN d then (x, FErr) else (((a, d) :: l, sl), FOk [])
+  | OCkpt => (x, FOk [])
+  | OLoadTrunc _ => (x, FErr)
+  | OLoadShape c u => if (c =? cap) && (u =? unit) then (x, FOk []) else (x, FErr)
+  | OSave => ((l, Some l), FOk [])
+  | ORestore => match sl with None => (x, FErr) | Some l0 => ((l0, sl), FOk []) end
   end.
 
-Fixpoint run_flat (cap unit : N) (l : flog) (ops : list op) : flog * list fobs :=
+Fixpoint runx_flat (cap unit : N) (x : fst_t) (ops : list op) : fst_t * list fobs :=
   match ops with
-  | [] => (l, [])
-  | o :: r => let '(l1, b) := flat_step cap unit l o in
-              let '(l2, bs) := run_flat cap unit l1 r in (l2, b :: bs)
+  | [] => (x, [])
+  | o :: r => let '(x1, b) := flat_step cap unit x o in
+              let '(x2, bs) := runx_flat cap unit x1 r in (x2, b :: bs)
   end.
+
+Definition run_flat (cap unit : N) (l : flog) (ops : list op) : flog * list fobs :=
+  let '((l', _), bs) := runx_flat cap unit (l, None) ops in (l', bs).
 
 Definition proj (b : obs) : option fobs :=
   match b with
   | BRes (ROk x) => Some (FOk x)
   | BRes RErr => Some FErr
   | BRes _ => None
-  | BCkpt _ true => Some (FOk [])
-  | BCkpt _ false => Some FErr
+  | BCkpt _ true true => Some (FOk [])
+  | BCkpt _ _ _ => Some FErr
   | BLoad true => Some (FOk [])
   | BLoad false => Some FErr
+  | BSave _ => Some (FOk [])
   end.
